@@ -108,7 +108,7 @@ fn try_spend(w: &mut World, id: CoinID, cdh: &CoinDataHeight) -> Option<(Transac
 
 pub fn run(p: &Params) -> Report {
     let mut rep = Report::new("C13");
-    rep.rule = "cases = histories on networks/heights outside the legacy windows, fabricated 1-3 blocks before an epoch boundary (k*200000) so that real seal/next_unsealed calls cross it, with pre-existing stakes ending in the current, next and later epochs and stake transactions covering every ordering of (current, start, end) epochs, equal/unequal amounts, wrong first-output denomination (alone, and followed by a SYM output equal to the declared amount), undecodable documents. A stake model (registered iff first output SYM = declared amount, start > current epoch, end > start; removed when the epoch after `end` begins) is compared after every batch and block with the registered set, votes()/total_votes() for 5 epochs and the stakes_hash; every registered stake's coin is spent in an otherwise valid transaction on a clone (same block, later blocks, across the boundary) and must be refused until the epoch after `end`, then accepted. Non-trivial = each stake document applied and each spend attempt; distinct by transaction hash and height".into();
+    rep.rule = "cases = histories on networks/heights outside the legacy windows, fabricated 1-3 blocks before an epoch boundary (k*200000) so that real seal/next_unsealed calls cross it, with pre-existing stakes ending in the current, next and later epochs and stake transactions covering every ordering of (current, start, end) epochs, equal/unequal amounts, wrong first-output denomination (alone, and followed by a SYM output equal to the declared amount), undecodable documents; one stake batch in three carries a second stake transaction (consistent or inconsistent) before or after the first. A stake model (registered iff first output SYM = declared amount, start > current epoch, end > start; removed when the epoch after `end` begins) is compared after every batch and block with the registered set, votes()/total_votes() for 5 epochs and the stakes_hash; every registered stake's coin is spent in an otherwise valid transaction on a clone (same block, later blocks, across the boundary) and must be refused until the epoch after `end`, then accepted. Non-trivial = each stake document applied and each spend attempt; distinct by transaction hash and height".into();
     let total = p.n(1000, 25000);
     let mine = p.share(total);
     let mut rng = Rng::new(p.shard_seed() ^ 0xC13);
@@ -243,10 +243,55 @@ pub fn run(p: &Params) -> Report {
                 let decodes = stdcode::deserialize::<StakeDoc>(&tx.data).is_ok();
                 let registers = stake_registers(&tx, w.height());
                 let cls = if !decodes { "undecodable-document".to_string() } else if first_denom != Denom::Sym { if sym_second { "first-output-not-SYM,second-is-the-declared-SYM".to_string() } else { "first-output-not-SYM".to_string() } } else if staked != v { "amount-mismatch".to_string() } else { ordering(cur_epoch, s, en) };
+                // a second stake transaction in the same batch, before or after the first: each is judged on its own,
+                // whatever the scan made of the other (consistent next to inconsistent, in both orders)
+                let mut second: Option<(Transaction, StakeDoc, Option<StakeDoc>)> = None;
+                if r.chance(1, 3) {
+                    let others: Vec<(CoinID, CoinDataHeight)> = w.spendable().into_iter().filter(|(i, c)| !tx.inputs.contains(i) && c.coin_data.value.0 <= MAX_COINVAL).collect();
+                    let sym = others.iter().find(|(_, c)| c.coin_data.denom == Denom::Sym && c.coin_data.value.0 >= 4).cloned();
+                    let mel = others.iter().find(|(_, c)| c.coin_data.denom == Denom::Mel && c.coin_data.value.0 > 0).cloned();
+                    if let (Some(sym), Some(mel)) = (sym, mel) {
+                        let v2 = 1 + r.below((sym.1.coin_data.value.0 / 2).min(1 << 40) as u64) as u128;
+                        let o2 = r.usize(4);
+                        // consistent (start in the future, end after it, amount equal) or inconsistent in one of three ways
+                        let (s2, e2, a2) = match r.below(5) {
+                            0 => (cur_epoch, cur_epoch + 2, v2),
+                            1 => (cur_epoch + 1, cur_epoch + 1, v2),
+                            2 => (cur_epoch + 1, cur_epoch + 3, v2 + 1),
+                            _ => (cur_epoch + 1, cur_epoch + 2 + r.below(2), v2),
+                        };
+                        let doc2 = StakeDoc { pubkey: w.owners[o2].key.pk, e_start: s2, e_post_end: e2, syms_staked: CoinValue(a2) };
+                        let payload2 = vec![CoinData { covhash: w.owners[o2].addr_new, value: CoinValue(v2), denom: Denom::Sym, additional_data: Bytes::new() }];
+                        if let Some(t2) = w.complete(TxKind::Stake, vec![sym, mel], payload2, doc2.stdcode(), 0) {
+                            let reg2 = stake_registers(&t2, w.height());
+                            second = Some((t2, doc2, reg2));
+                        }
+                    }
+                }
                 // same-batch spend attempt of the staked coin
-                let with_spend = r.chance(1, 4);
+                let with_spend = second.is_none() && r.chance(1, 4);
                 let mut batch = vec![tx.clone()];
                 let mut labels = vec![format!("stake {}", cls)];
+                if let Some((t2, _, reg2)) = &second {
+                    let l2 = format!("second-stake {}", if reg2.is_some() { "consistent" } else { "inconsistent" });
+                    if r.chance(1, 2) {
+                        batch.insert(0, t2.clone());
+                        labels.insert(0, l2);
+                    } else {
+                        batch.push(t2.clone());
+                        labels.push(l2);
+                    }
+                    rep.count(&format!("batches with two stake transactions: first {}, second {}", if batch[0].hash_nosigs() == h { if registers.is_some() { "consistent" } else { "not-registering" } } else if reg2.is_some() { "consistent" } else { "not-registering" }, if batch[1].hash_nosigs() == h { if registers.is_some() { "consistent" } else { "not-registering" } } else if reg2.is_some() { "consistent" } else { "not-registering" }));
+                }
+                if let Some((t2, _, reg2)) = &second {
+                    let first_is_tx = batch[0].hash_nosigs() == h;
+                    let (r_first, r_second) = if first_is_tx { (registers.is_some(), reg2.is_some()) } else { (reg2.is_some(), registers.is_some()) };
+                    let first_decodes = if first_is_tx { decodes && first_denom == Denom::Sym } else { true };
+                    let _ = t2;
+                    if !r_first && r_second && first_decodes {
+                        rep.count("batches with an inconsistent stake presented before a consistent one");
+                    }
+                }
                 if with_spend {
                     let staked_coin = (CoinID { txhash: h, index: 0 }, CoinDataHeight { coin_data: tx.outputs[0].clone(), height: BlockHeight(w.height()) });
                     if let Some(mel) = w.spendable().into_iter().find(|(i, c)| c.coin_data.denom == Denom::Mel && !tx.inputs.contains(i) && c.coin_data.value.0 <= MAX_COINVAL) {
@@ -269,12 +314,19 @@ pub fn run(p: &Params) -> Report {
                             // accepting it is not what the statement forbids; registering it is (check_registry below)
                             rep.count("accepted a stake transaction with an undecodable document or a non-SYM first output (must not register)");
                         }
-                        if n_batch == 2 && registers.is_some() {
+                        if n_batch == 2 && registers.is_some() && second.is_none() {
                             rep.violate("C13|staked-coin-spent|apply_tx_batch|same-batch", "the staked coin was spent in the batch that created the stake".into(), wit.clone());
                         }
                         model.seen.insert(h, (doc, registers.is_some(), cls.clone()));
                         if let Some(d) = registers {
                             model.reg.insert(h, d);
+                        }
+                        if let Some((t2, doc2, reg2)) = &second {
+                            let h2 = t2.hash_nosigs();
+                            model.seen.insert(h2, (*doc2, reg2.is_some(), "second-stake-of-the-batch".into()));
+                            if let Some(d) = reg2 {
+                                model.reg.insert(h2, *d);
+                            }
                         }
                     }
                     Ok(Err(_)) => {
@@ -358,6 +410,7 @@ pub fn run(p: &Params) -> Report {
         rep.require("epoch boundaries crossed", p.n(100, 2000));
         rep.require("spend attempts on locked stake coins", p.n(500, 10000));
         rep.require("spend attempts on expired stake coins", p.n(30, 600));
+        rep.require("batches with an inconsistent stake presented before a consistent one", p.n(30, 600));
     }
     rep
 }
